@@ -95,6 +95,21 @@ def end_to_end(out, by_enc, seed, n_docs):
                             n += 1
                             if got3 != exp3:
                                 bad = {"step": "didChange2 (two changes in one notification)", "expected": exp3, "got": got3}
+                # a zero-width range at the very end of a file whose last line is a comment holding the document (no line break at the
+                # end): `Expecting "}"` sits at the end of the text, i.e. three ASCII columns + the table's last column into line 1
+                if bad is None and "nl" not in case["doc"] and case["doc"]:
+                    path2 = os.path.join(root, "src", f"e{k}.gleam")
+                    text2 = "fn f() {\n// " + text
+                    open(path2, "w").write(text2)
+                    with sess.cv:
+                        seen = len(sess.notifications)
+                    sess.did_open(path2, text2)
+                    seen, got4 = diagnostics_after(sess, lsp.uri(path2), seen)
+                    endc = 3 + case["tab"][-1]["c"]
+                    exp4 = [((1, endc), (1, endc))]
+                    n += 1
+                    if got4 != exp4:
+                        bad = {"step": "eof (zero-width range at the end of a file that ends in a comment)", "expected": exp4, "got": got4, "text": text2}
                 if bad:
                     out.report({"what": "published ranges are not the token boundaries in the client's numbering", "level": "server", "encoding": sess.enc, "step": bad["step"].split(" ")[0]},
                                {"doc": case["doc"], "table": (seed + k) % len(TABLES), "offer": offer, "bad": bad, "e2e": True})
